@@ -422,6 +422,62 @@ func ruleL15(r *Run) {
 						}
 						return true
 					})
+					// clone.items = copyDict(c.items): a helper of the package that hands back a container of its own making
+					if c, isCall := ast.Unparen(as.Rhs[i]).(*ast.CallExpr); isCall && usesOrig {
+						if d, cpkg := p.calleeDecl(info, c); d != nil && cpkg == pkg && d.Body != nil {
+							params := map[types.Object]bool{}
+							for _, pv := range paramsOf(info, d.Type) {
+								if pv != nil {
+									params[pv] = true
+								}
+							}
+							defs := localDefs(info, d.Body)
+							fresh, nRet := true, 0
+							ast.Inspect(d.Body, func(q ast.Node) bool {
+								if _, isLit := q.(*ast.FuncLit); isLit {
+									return false
+								}
+								ret, ok := q.(*ast.ReturnStmt)
+								if !ok {
+									return true
+								}
+								nRet++
+								if len(ret.Results) != 1 {
+									fresh = false
+									return true
+								}
+								e := ast.Unparen(ret.Results[0])
+								if id, ok := e.(*ast.Ident); ok && id.Name == "nil" {
+									return true
+								}
+								if o := identObj(info, e); o != nil && !params[o] {
+									if def, ok := defs[o]; ok && def != nil {
+										e = ast.Unparen(def)
+									}
+								}
+								made := false
+								switch x := e.(type) {
+								case *ast.CompositeLit:
+									made = true
+								case *ast.CallExpr:
+									made = true // a constructor: none of its arguments may be the helper's input
+									ast.Inspect(x, func(k ast.Node) bool {
+										if id, ok := k.(*ast.Ident); ok && params[info.Uses[id]] {
+											made = false
+										}
+										return true
+									})
+								}
+								if !made {
+									fresh = false
+								}
+								return true
+							})
+							if fresh && nRet > 0 {
+								usesOrig = false
+							}
+						}
+					}
 					r.Check(!usesOrig, key, as.Pos(), "a fresh container (filled by a copying call)", "the clone's "+fv.Name()+" is built from `"+types.ExprString(as.Rhs[i])+"`, an expression over the original: the two share one unsynchronised map - concurrent branches race on it and see each other's headers")
 				}
 				return true
